@@ -140,6 +140,10 @@ def apply_edits(las, edits):
                 sel = list(range(n - 1, -1, -2))[::-1]  # every second row, the last one kept
                 las.data = las.data[sel]
             else:
+                if any(":" in str(k) for k in las.keys()):
+                    # the frame's column names (session names such as GR:1) become the curves' own names: a mnemonic
+                    # with a colon is outside the header grammar, the output could not be judged by re-reading it
+                    continue
                 df = las.df()
                 las.set_data_from_df(df.iloc[min(int(e[1]), n - 2):])
         elif k == "curve_set" and len(las.curves) > 1:
@@ -237,21 +241,33 @@ def oracle(case):
             w = {i.original_mnemonic.upper(): i for i in back.well}
             why = ("index-created" if not was_read else "index-edited" if index_ever_edited else "stop-disagreed") + ("" if n == 0 else "|later-write")
 
-            def close(v, target):
+            # "to format precision": the stated value may follow the index as held in memory or as the numeric
+            # format printed it (the re-read index); anything between the two, +- half a unit of the 5th decimal
+            widx = idx
+            try:
+                bi = np.asarray(back.curves[0].data, dtype=float)
+                if bi.shape == idx.shape and not np.isnan(bi).any():
+                    widx = bi
+            except (TypeError, ValueError, IndexError):
+                pass
+
+            def close(v, target, wtarget=None):
                 try:
                     v = float(v)
                 except (TypeError, ValueError):
                     return False
-                return abs(v - target) <= 0.5e-5 + 1e-9 * abs(target) + 1e-12
+                wtarget = target if wtarget is None else wtarget
+                tol = 0.5e-5 + 1e-9 * max(abs(target), abs(wtarget)) + 1e-12
+                return min(target, wtarget) - tol <= v <= max(target, wtarget) + tol
 
             ctx = "write #%d, opts=%r, rounds=%r\n%s" % (n + 1, opts, rounds, t[:1200])
-            if "STRT" in w and not close(w["STRT"].value, idx[0]):
+            if "STRT" in w and not close(w["STRT"].value, idx[0], widx[0]):
                 out.fail("STRT-untruthful|" + why, "output STRT=%r but the first index value is %r\n%s" % (w["STRT"].value, idx[0], ctx))
-            if "STOP" in w and not close(w["STOP"].value, idx[-1]):
+            if "STOP" in w and not close(w["STOP"].value, idx[-1], widx[-1]):
                 out.fail("STOP-untruthful|" + why, "output STOP=%r but the last index value is %r\n%s" % (w["STOP"].value, idx[-1], ctx))
             if "STEP" in w:
                 if len(idx) > 1 and idx[0] != idx[-1]:
-                    if not close(w["STEP"].value, idx[1] - idx[0]):
+                    if not close(w["STEP"].value, idx[1] - idx[0], widx[1] - widx[0]):
                         out.fail("STEP-untruthful|" + why, "output STEP=%r but the first increment is %r\n%s" % (w["STEP"].value, idx[1] - idx[0], ctx))
                 else:
                     if w["STEP"].value not in ("", 0) and not close(w["STEP"].value, 0.0):
